@@ -1072,7 +1072,8 @@ class Chunk(Pipeline):
             return {"utts": [{"id": "long", "T": T, "ali": ali, "ref": ref}], "policy": "fixed", "window": "symmetric", "lobe": 0, "pad_mode": None, "pad_constant": 0.0,
                     "partial": False, "retain": rng.random() < 0.5, "salt": rng.randrange(1000), "with_ali": True, "with_ref": True, "idx_names": False,
                     "subdirs": ["feat", "ali", "ref"], "huge": True}
-        return {"utts": utts, "policy": rng.choice(["fixed", "ali", "ref"]), "window": rng.choice(["symmetric", "causal", "future"]), "lobe": rng.choice([0, 0, 1, 2, 3]),
+        policy = rng.choice(["fixed", "ali", "ref"])
+        return {"utts": utts, "policy": policy, "ref1d": policy != "ref" and rng.random() < 0.12, "window": rng.choice(["symmetric", "causal", "future"]), "lobe": rng.choice([0, 0, 1, 2, 3]),
                 "pad_mode": rng.choice([None, None, "constant", "replicate", "reflect"]), "pad_constant": rng.choice([0.0, -1.0, 2.0]), "partial": rng.random() < 0.3,
                 "retain": rng.random() < 0.25, "salt": rng.randrange(1000), "with_ali": rng.random() < 0.8, "with_ref": rng.random() < 0.8, "idx_names": idx_names,
                 "subdirs": rng.choice([["feat", "ali", "ref"], ["feat", "ali", "ref"], ["f", "a", "r"], ["mfcc", "pdf", "txt"]])}
@@ -1096,7 +1097,10 @@ class Chunk(Pipeline):
             if with_ali:
                 torch.save(torch.tensor(u["ali"], dtype=torch.long), s.p("in", AS, fname(sc, u["id"])))
             if with_ref:
-                torch.save(torch.tensor(u["ref"], dtype=torch.long).reshape(-1, 3), s.p("in", RS, fname(sc, u["id"])))
+                if sc.get("ref1d"):  # token-only transcripts: a well-formed directory without segment boundaries
+                    torch.save(torch.tensor([r[0] for r in u["ref"]], dtype=torch.long).reshape(-1), s.p("in", RS, fname(sc, u["id"])))
+                else:
+                    torch.save(torch.tensor(u["ref"], dtype=torch.long).reshape(-1, 3), s.p("in", RS, fname(sc, u["id"])))
         a = [s.p("in"), s.p("out")] + naming_args(sc) + cfg.args() + ["--policy", sc["policy"], "--lobe-size", sc["lobe"], "--window-type", sc["window"], "--quiet"]
         if sc["pad_mode"]:
             a += ["--pad-mode", sc["pad_mode"], "--pad-constant", sc["pad_constant"]]
@@ -1218,6 +1222,11 @@ class Chunk(Pipeline):
                     keep = [r for r in u["ref"] if r[1] >= 0 and r[2] >= 0 and r[2] >= r[1] and st < r[2] and en > r[1]]
                 else:
                     keep = [r for r in u["ref"] if r[1] >= 0 and r[2] >= 0 and r[2] >= r[1] and st <= r[1] and en >= r[2]]
+                if sc.get("ref1d"):
+                    keep = []  # no known segments: nothing can be placed in a chunk
+                    if ref[2] != (0,):
+                        res.violate("chunk.tokens", f"chunk {cid} of a token-only transcript holds a reference of shape {ref[2]}, expected an empty 1-D one", pipeline=P, what="tokens")
+                        return
                 want = [[t, a_ - (0 if sc["retain"] else st), b_ - (0 if sc["retain"] else st)] for t, a_, b_ in keep]
                 got_r = ref[3] if ref[2][0] else []
                 if got_r != want:
